@@ -138,5 +138,32 @@ def passProgram (decide : Option Instr → Instr → Subst → Option (Nat × Op
 def optOK (f : Func) : Bool :=
   blockLocal [] f.code && forwardOK none (pass ccDecide f.code) && defsDistinct f.code
 
+/-! ## Structural well-formedness checkers (property C14; soundness in `Nsl/Proofs/WFBlock.lean`) -/
+section
+open WF
+
+/-- no two markers carry the same label -/
+def labelsDistinct (code : List Instr) : Bool := distinct (code.filterMap labelOf)
+
+/-- every branch target is the label of a marker of the same code -/
+def targetsOK (code : List Instr) : Bool :=
+  code.all fun ins => (targetsOf ins).all fun l => (labelPos code l).isSome
+
+/-- a call names a function of `P` with as many parameters as the call has arguments -/
+def callOK (P : Program) : Instr → Bool
+  | .call _ _ f args =>
+    match P.find f with
+    | some callee => callee.params.length == args.length
+    | none => false
+  | _ => true
+
+def callsOK (fn : Func) (P : Program) : Bool := fn.code.all (callOK P)
+
+/-- all five structural conditions -/
+def wfChecks (fn : Func) (P : Program) : Bool :=
+  blockLocal [] fn.code && defsDistinct fn.code && labelsDistinct fn.code && targetsOK fn.code && callsOK fn P
+
+end
+
 end Opt
 end Nsl
